@@ -438,6 +438,12 @@ class Parser(object):
             e = self.parse_expr()
             self.expect_op(')')
             return ('func', {'both': 'trim_str', 'leading': 'ltrim_str', 'trailing': 'rtrim_str'}[side], [e, rem], False, False)
+        if name.lower() == 'extract' and self.peek().kind == 'kw' and self.peek().val == 'from':
+            part = str(self.adv().val).lower()                  # EXTRACT(YEAR FROM expr)
+            self.expect_kw('from')
+            e = self.parse_expr()
+            self.expect_op(')')
+            return ('func', 'extract_' + part, [e], False, False)
         if self.accept_kw('distinct'): distinct = True
         if self.is_op('*'):
             self.adv(); star = True
